@@ -11,7 +11,7 @@ From Coq Require Import List Bool ZArith String.
 From PE Require Import Base.QUtil Model.Geom2 Model.Filter Model.Matching Model.AP Model.FrameInv
                        Model.Transform Model.Heading
                        Proofs.Geom2Proofs Proofs.TransformProofs Proofs.HeadingProofs
-                       Proofs.APKinds Proofs.FrameInvProofs Model.Clear Proofs.ClearEquiv.
+                       Proofs.APKinds Proofs.FrameInvProofs Model.Clear Proofs.ClearEquiv Model.Clip Proofs.ClipArea.
 Import ListNotations.
 Open Scope Q_scope.
 
@@ -70,6 +70,15 @@ Proof.
   intros inter H m e g Um Ve Vg. split; [now apply iou2_rigid_invariant|now apply iou3_rigid_invariant].
 Qed.
 Print Assumptions C07_iou_invariant.
+
+(* ... and unconditionally for the exact evaluator of the intersection area (Sutherland-Hodgman + shoelace, Model/Clip.v), with
+   which shapely is compared on every run: its rigid invariance is proved in Proofs/ClipArea.v *)
+Theorem C07_iou_invariant_exact_evaluator : forall (m : motion) (e g : box),
+  motion_unit m -> box_valid e -> box_valid g ->
+  iou2_clip (move_box m e) (move_box m g) == iou2_clip e g /\
+  iou3_clip (move_box m e) (move_box m g) == iou3_clip e g.
+Proof. intros m e g Um Ve Vg. now apply iou_clip_rigid_invariant. Qed.
+Print Assumptions C07_iou_invariant_exact_evaluator.
 
 (* heading agreement (APH weight): the pair rotated by any ego yaw e (pi-units, with wrap-around) *)
 Theorem C07_heading_weight_invariant : forall (e : Q) (est gt : orientation),
